@@ -86,6 +86,7 @@ def contexts(n):
         'brace': lambda it: (('C', y, (('G{', it + (('T', n.o),)),), ()),),
         'bracket': lambda it: (('C', y, (('G[', (('T', n.a),) + it),), ()),),
         'item': lambda it: (('C', 'item', (), (('T', ' '),) + it + (('T', n.o),)),),
+        'linebreak': lambda it: (('T', n.a + '\\\\'),) + it + (('T', '\\\\' + n.o),),
     }
 
 
